@@ -5,6 +5,7 @@ import (
 	"os"
 	"strings"
 	"testing"
+	"time"
 
 	"github.com/resonatehq/resonate/internal/kernel/t_api"
 	"github.com/resonatehq/resonate/internal/verif/core"
@@ -108,11 +109,28 @@ func explain(s *Sim, q *SeqRunner) (vs []Violation, explained, straddling, lostC
 		try := func(cs []core.Snapshot) {
 			for _, sn := range cs {
 				for _, tau := range ticks {
-					sres, seff := q.Run(sn, r.Req, tau)
+					sres, seff, spont := q.RunSpont(sn, r.Req, tau)
 					lastRes, lastEff = blur(sres), blur(seff)
 					if lastEff == wantEff && (failed || lastRes == got) {
-						ok = true
-						return
+						// a time-out the explaining run let take effect must be real: the promise must actually be
+						// stored as timed out by the time of the response (whoever did it). Otherwise the "explanation"
+						// is a state that never existed (the request saw pending, decided time-out, lost the race).
+						real := true
+						at := s.Snaps[min(r.ResSnap, len(s.Snaps)-1)]
+						if !r.Done {
+							at = s.Snaps[len(s.Snaps)-1]
+						}
+						for _, id := range spont {
+							row, has := at["promises"][id]
+							if !has || row.I("state") == pPending || row.I("completed_on") != row.I("timeout") {
+								real = false
+								lastRes += fmt.Sprintf(" [needs promise %s to have timed out, stored: %s]", id, core.RowString(row))
+							}
+						}
+						if real {
+							ok = true
+							return
+						}
 					}
 				}
 			}
@@ -164,16 +182,34 @@ func TestC02(t *testing.T) {
 		Fatal: []string{"C02"},
 		Build: func(d D) *Case {
 			g := DefaultGen(d)
-			g.W = map[string]int{"CreatePromise": 4, "CreatePromiseAndTask": 1, "CompletePromise": 4, "ReadPromise": 2, "SearchPromises": 1, "CreateCallback": 2, "CreateSubscription": 2,
-				"AcquireLock": 2, "ReleaseLock": 1, "HeartbeatLocks": 1, "ClaimTask": 3, "CompleteTask": 2, "HeartbeatTasks": 1, "CreateSchedule": 1, "ReadSchedule": 1, "DeleteSchedule": 1, "SearchSchedules": 1}
-			g.TimeoutDeltas = []int64{1000, 2000, 3000, 5000, 60000}
+			g.TimeoutDeltas = []int64{500, 1000, 1000, 2000, 3000, 60000}
 			c := &Case{Cfg: GenConfig(d, 8), Prof: Profile{Bg: []string{"TimeoutPromises", "TimeoutLocks", "EnqueueTasks", "TimeoutTasks"}, Permute: true, Hold: 5, Cut: 2, SendFail: 6},
-				Gen: g, Steps: [2]int{3, 12}, MaxRq: 4, Dts: []int64{0, 0, 1, 500, 1000, 1000, 2000, -1}, Settle: 2, Prime: 2, ExtraTicks: 2}
-			c.QuietAdvance = !d.OneIn(4, "straddle")
+				Gen: g, Steps: [2]int{3, 12}, MaxRq: 4, Dts: []int64{0, 0, 0, 1, 500, 1000, 1000, 2000, -1, -1, -2, -3}, Settle: 2, Prime: 2, ExtraTicks: 2}
+			// one of several workload profiles per case: the whole API, or traffic concentrated on one family of
+			// operations so that its races (lost compare-and-set, decisions straddling a deadline) are frequent
+			switch d.Uni(5, "profile") {
+			case 0, 1:
+				g.W = map[string]int{"CreatePromise": 4, "CreatePromiseAndTask": 1, "CompletePromise": 4, "ReadPromise": 2, "SearchPromises": 1, "CreateCallback": 2, "CreateSubscription": 2,
+					"AcquireLock": 2, "ReleaseLock": 1, "HeartbeatLocks": 1, "ClaimTask": 3, "CompleteTask": 2, "HeartbeatTasks": 1, "CreateSchedule": 1, "ReadSchedule": 1, "DeleteSchedule": 1, "SearchSchedules": 1}
+			case 2:
+				g.W = map[string]int{"CreatePromise": 3, "CreatePromiseAndTask": 1, "CompletePromise": 7, "ReadPromise": 3, "SearchPromises": 2, "CreateCallback": 1, "CreateSubscription": 1}
+			case 3:
+				g.Pids = []string{"p1", "p2"}
+				g.RouteOneIn = 1
+				g.TimeoutDeltas = []int64{3000, 5000, 8000, 20000}
+				g.W = map[string]int{"CreatePromise": 2, "CreatePromiseAndTask": 1, "CreateCallback": 2, "CompletePromise": 1, "ClaimTask": 8, "CompleteTask": 4, "HeartbeatTasks": 4}
+				c.Cfg.SignalTimeout, c.Cfg.TaskEnqueueDelay = time.Second, time.Second
+				c.ExtraTicks, c.Steps = 4, [2]int{5, 14}
+			default:
+				g.W = map[string]int{"AcquireLock": 6, "ReleaseLock": 3, "HeartbeatLocks": 3, "CreateSchedule": 3, "ReadSchedule": 1, "DeleteSchedule": 2, "SearchSchedules": 1}
+				c.Cfg.SignalTimeout = time.Second
+				c.Prof.Bg = []string{"TimeoutLocks", "SchedulePromises", "TimeoutPromises"}
+			}
+			c.QuietAdvance = !d.OneIn(2, "straddle")
 			if d.OneIn(3, "faults") {
 				c.Prof.FailBefore, c.Prof.FailAfter = 14, 10
 			}
-			if d.OneIn(5, "nobg") {
+			if d.OneIn(6, "nobg") {
 				c.Prof.Bg = nil
 			}
 			return c
@@ -221,4 +257,18 @@ func TestC02(t *testing.T) {
 		st.Extra["requests_straddling_a_clock_advance"] = nStraddle
 	}
 	RunCampaign(t, c)
+}
+
+func init() {
+	if os.Getenv("VERIF_DEBUG_EXPLAIN") != "" {
+		DebugHook = func(s *Sim, dir string) {
+			q := NewSeqRunner(s.Cfg, dir)
+			defer q.Close()
+			vs, e, _, _ := explain(s, q)
+			fmt.Printf("DEBUG explain: explained=%d violations=%d\n", e, len(vs))
+			for _, v := range vs {
+				fmt.Println("DEBUG", v.String()[:min(len(v.String()), 600)])
+			}
+		}
+	}
 }
